@@ -10,24 +10,24 @@ open StepModel.Spec
 def showLogical : Logical → String
   | .t => "logical T" | .f => "logical F" | .u => "logical U"
 
+def kindLetter : Kind → String
+  | .array => "A" | .list => "L" | .bag => "B" | .set => "S"
+
 def showTy : Ty → String
   | .simple t => toString t
-  | .agg .array b => s!"A{b}" | .agg .list b => s!"L{b}" | .agg .bag b => s!"B{b}" | .agg .set b => s!"S{b}"
+  | .agg k b => kindLetter k ++ showTy b
 
-/-- `0 1 2` simple types; `A0 L1 B2 S0 …` = ARRAY/LIST/BAG/SET OF the simple type -/
-def parseTy (s : String) : Option Ty :=
-  match s.toNat? with
-  | some t => if t < 3 then some (.simple t) else none
-  | none =>
-    match s.toList with
-    | [k, d] =>
-      let b := d.toNat - '0'.toNat
-      if d.isDigit && b < 3 then
-        match k with
-        | 'A' => some (.agg .array b) | 'L' => some (.agg .list b) | 'B' => some (.agg .bag b) | 'S' => some (.agg .set b)
-        | _ => none
-      else none
-    | _ => none
+def parseTyChars : List Char → Option Ty
+  | [d] => if d.isDigit && d.toNat - '0'.toNat < 3 then some (.simple (d.toNat - '0'.toNat)) else none
+  | k :: rest =>
+    match k, parseTyChars rest with
+    | 'A', some b => some (.agg .array b) | 'L', some b => some (.agg .list b)
+    | 'B', some b => some (.agg .bag b) | 'S', some b => some (.agg .set b)
+    | _, _ => none
+  | [] => none
+
+/-- `0 1 2` simple types; `A0`, `LS2`, `ALS2` … = kind letters (ARRAY/LIST/BAG/SET OF …) down to the simple type -/
+def parseTy (s : String) : Option Ty := if s.length ≤ 6 then parseTyChars s.toList else none
 
 def showAns : Ans → String
   | .ok => "ok" | .val x => s!"val {showTy x.ty} {x.v}" | .unset => "unset" | .refused => "refused"
